@@ -44,7 +44,7 @@ CLAIMED = {
         "any sequence of them, keeps every such total exactly. Tied to the code on every run: trajectories of the freshly compiled Euler, "
         "tau-leap and Gillespie engines on random grids and graphs (four sampling policies, chemostat maps, time step tuned so that "
         "channels fire), laws = a basis of the integer left null space computed by the harness and re-validated in Coq against the "
-        "model's sto table; totals compared in whole molecules (exactly) for the stochastic engines.",
+        "model's sto table; totals compared in whole molecules (exactly) for the stochastic engines. Two fifths of the Euler runs take coarse explicit steps (amounts overshoot below zero), half of the tau-leap runs coarse leaps at low copy numbers.",
         "Trusted: Coq kernel + VM; the hand-written models of Compute_dxdt / Apply_dxdt / ApplyReaction / ApplyDiffusion / Apply_nevt "
         "(events as (channel, count) lists; which events the engine draws is C07's subject) tied by sampled correspondence: 1500 "
         "trajectories quick (all screened by the property oracle in Python, 150 plus every objection judged in Coq), 30000 thorough; runs "
@@ -80,7 +80,7 @@ CLAIMED = {
         "as dictionaries with a units declaration at every level (script, system, network, space, species, reaction, node, edge), five "
         "re-descriptions each (bare numbers re-scaled to new systems at every level; all bare numbers incl. time step, t_max, interval and "
         "requested times made explicit and all declarations scrambled; one system declared at the top and inherited; script/output units "
-        "changed), loaded with rdscript_from_dict; state, chemostats, compute_dstatedt and a 2-6 step Euler trajectory compared in SI.",
+        "changed), loaded with rdscript_from_dict; state, chemostats, compute_dstatedt and a 2-6 step Euler trajectory compared in SI. For every re-description the state both stochastic engines start from (recorded at set-up, no processing) is compared too.",
         "Trusted: Coq kernel + VM; the tie between these algebraic theorems and the code is the C01 model (engine tables in engine units, "
         "tied there) plus this metamorphic correspondence (120 systems x 5 re-descriptions quick, 2500 thorough); comparison at relative "
         "1e-6 plus an absolute floor of 1e-9 x (largest amount)/(time step) for cancelling sums; requested times and t_max are placed half a "
@@ -152,7 +152,7 @@ CLAIMED = {
         "(grid/graph, four policies, four init_state_processing modes) executed in one child process as reference, again, on another "
         "object, after unrelated simulations, under random partitions incl. iterate_n(0) and run(0/1/3 ms), from the script stored in the "
         "trajectory, from rng_seed=None and then its stored script, with another seed (Euler identical, Gillespie different), and in a "
-        "fresh process; times and data compared bit for bit in Coq.",
+        "fresh process; times and data compared bit for bit in Coq. The same run is also asked for through simulate() with every script property as a keyword argument.",
         "Trusted: Coq kernel + VM; the modelling assumption that an iteration is a function of the simulation object alone (no static, "
         "clock or uninitialised memory) is exactly what the correspondence tests, by sampling (60 scripts x 11 runs quick, 1500 thorough); "
         "PARTIAL: real wall-clock slicing of run(ms) is sampled (0, 1, 3 ms), the theorem covers all slicings of the model; 'a different "
@@ -254,7 +254,7 @@ CLAIMED = {
         "are distinct entries, a bare number is read in the system's units, a wrong dimension is rejected, label and index address "
         "the same species. Tied to rdsystem.py / value_processing.py / rdgraphspace.py on every run by random systems with "
         "independent unit systems at every level and random accessor sequences (species by index/label/object, cell by "
-        "index/tuple/object, invalid addresses) incl. species edits followed by regeneration; verdict computed in Coq.",
+        "index/tuple/object, invalid addresses) incl. species edits followed by regeneration; verdict computed in Coq. A third of the spaces (and a fifth of the species / reactions of every random system, in every check that draws systems) are built in one units system and given another before use.",
         "Trusted: Coq kernel + VM; the hand-written model of generate_system_state / generate_system_chemostats / get_value_in_env / "
         "get_state_index / set_state (tied by sampled correspondence: 300 systems quick, 5000 thorough); environment indices are "
         "generated valid (invalid ones belong to C20); binary64 compared at relative 1e-9; the translator harness/translate_enums.py (Python ast for the validators' membership tests and engine_collection.py; regular expressions over comment-free engine.cpp / *Base.hpp for the CompareStr chains and the SamplingStep switch; any other shape is an error); the Python harness.",
@@ -302,7 +302,7 @@ CLAIMED = {
         "each environment's cells into random groups and dropping a random fraction (dropped cells of several environments), identity "
         "maps and six kinds of invalid maps; accepted / raised against the documented validity rules, node volumes and environments, the "
         "edge list in order with surfaces and squared centroid distances, aggregated state and flags, uncoarsegrain_trajectory_data, and "
-        "simulate(cgmap=identity) against the plain Euler simulation.",
+        "simulate(cgmap=identity) against the plain Euler simulation. The coarse trajectory that is un-coarse-grained states its amounts in a unit of its own, and every result is compared as an amount (converted), never as a bare number.",
         "Trusted: Coq kernel + VM; the hand-written model of coarsegrain.py tied by sampled correspondence (400 maps quick, 6000 thorough); "
         "surface = shared faces x area and distance = centroid distance are established by correspondence against the model's definitions "
         "(merge of the grid's adjacency list by group pair; mean of member positions), not restated as separate theorems; the identity-map "
@@ -318,7 +318,7 @@ CLAIMED = {
         "last), closest the nearer of the bracketing pair with ties to the earlier and the end samples outside the range. Tied to "
         "rdoutput.py on every run: exhaustive over shapes N,S,C <= 4 (5 thorough) x grid/graph, every triple through every accessor "
         "with species by index/label/object and cells by index/tuple/object, sample times with and without duplicates, queries "
-        "before/after/on/between samples in several time units; verdict in Coq (exact equality for reads). String enumerations re-read from the source on every run (harness/translate_enums.py, fail-closed; Model/Enums.v, obligations in Proofs/EnumFacts.v by closed computation): the look-up policies get_sample_index accepts are exactly closest, supeq, infeq (C17_lookup_policies).",
+        "before/after/on/between samples in several time units; verdict in Coq (exact equality for reads). String enumerations re-read from the source on every run (harness/translate_enums.py, fail-closed; Model/Enums.v, obligations in Proofs/EnumFacts.v by closed computation): the look-up policies get_sample_index accepts are exactly closest, supeq, infeq (C17_lookup_policies). Grids take every factorisation of the cell count, plus 16x17x1 and 7x6x7; cells are referred to by index, tuple, list, x/y/z object, numpy rows of uint8 / int16 / int64 / float64, numpy integers and points inside the cell.",
         "Trusted: Coq kernel + VM; the hand-written model of the numpy reshape-based accessors (row-major) and of the three look-up "
         "loops, tied by the exhaustive sweep on the stated bound; closest is claimed on strictly increasing times only (with duplicate "
         "times 'ties to the earlier' is not meaningful); negative / out-of-range sample indices are not part of the statement; queries "
@@ -357,7 +357,7 @@ CLAIMED = {
         "separators, signed, underscored and malformed coefficients, missing / doubled '->' and '+') through Reaction(text) vs parse_eq "
         "(raise-or-dictionaries in insertion order); 1500 reactions through to_string / re-parse / ssto / psto / dsto / order / rorder, "
         "labels filtered by the package's own label rule; 600 constants of orders 0..8 (bare numbers, quantities in random systems, wrong "
-        "dimensions) incl. split() and K; 300 networks with duplicate / undeclared species and duplicate reaction labels.",
+        "dimensions) incl. split() and K; 300 networks with duplicate / undeclared species and duplicate reaction labels. Network validity: duplicate species, duplicate reaction labels, an undeclared species on either side of a reaction or on both.",
         "Trusted: Coq kernel + VM; the hand-written model of Python's str.split / strip / isspace / int on the inputs generated (non-ASCII "
         "digits, which int() accepts, are not generated); empty labels are excluded (the label rule accepts them vacuously, a reaction "
         "using one prints as blanks); per-environment constant dictionaries are exercised in C01/C13, not here; unit-conversion overflow "
